@@ -6,7 +6,7 @@ from vlib import readout as ro
 
 ID = 'C06'
 LEVEL = 'exploration'
-RULE = ('template families T1-T8 (binary/constant/nested arithmetic with all '
+RULE = ('template families T1-T9 (T9: formula strings without redundant parentheses - every chain of two arithmetic operators, chains of three, sibling LETs binding one name, identifiers with capitals / digits / underscores - read by the reference parser; T1-T8: binary/constant/nested arithmetic with all '
         '5 operators over all ordered pairs of 14 type-hint shapes, all '
         'comparator spellings, ranges, every connective spelling to depth 2, '
         'both conditionals at both levels, quantifiers incl. alternation and '
@@ -312,8 +312,61 @@ def gen_T8(tier):
                    tree=('<', P('a'), ('+', 'a', '1')))
 
 
+def gen_T9(tier):
+    """Formulas given as STRINGS without redundant parentheses: the
+    reference tree comes from the reference parser (documented precedence
+    and associativity), so chains of operators are read as documented."""
+    def S(formula, decl, **kw):
+        return dict(t='T9', decl=decl, formula=formula,
+                    tree=fm.parse(formula), **kw)
+    def F(expr, decl):
+        # r = <expr>: functional comparison, r's hint covers every value
+        tree = fm.parse(expr)
+        h = _result_hint(tree, decl)
+        if h is None:
+            return None
+        return dict(t='T9', decl=dict(decl, r=h), formula='r = ' + expr,
+                    tree=('=', 'r', tree), func='r')
+    # chains of two arithmetic operators, every pair
+    for sa in SMALL:
+        decl = dict(a=sa, b=(0, 2), c=(-3, 2))
+        for o1, o2 in itertools.product(OPS, OPS):
+            c = F(f'a {o1} b {o2} c', decl)
+            if c:
+                yield c
+    decl = dict(a=(-3, 2), b=(1, 5), c=(0, 2), d=(-3, -1))
+    for o1, o2, o3 in itertools.product(['-', '*', '/', '%'], repeat=3):
+        c = F(f'a {o1} b {o2} c {o3} d', decl)
+        if c:
+            yield c
+    for f in ['a - b - c < d', 'a - b + c <= d', 'a / b / c = d + 1',
+              'a % b % c >= 0', 'a * b / c = a', 'a + b * c - d > a * b']:
+        yield S(f, decl)
+    # sibling LET expressions binding the same name; a LET name used again
+    # outside its LET; LET inside both branches of an ite
+    ldecl = dict(x=(0, 2), y=(-3, 2), p='bool')
+    for f in ['(LET k == 1 IN x = k) /\\ (LET k == 2 IN y = k)',
+              '(LET k == x + 1 IN k > y) \\/ (LET k == y - 1 IN k < x)',
+              '(LET b == p IN b /\\ x = 1) => (LET b == ~ p IN b \\/ y = 0)',
+              '(LET k == 1 IN x = k) /\\ (LET j == 2 IN y = j) /\\ '
+              '(LET k == 0 IN y > k)',
+              'ite(p, LET k == 1 IN x + k, LET k == 2 IN x - k) = y']:
+        yield S(f, ldecl)
+    # identifiers with capitals, digits and underscores after the first
+    # character
+    ndecl = dict(numItems=(0, 2), x_Y=(-3, 2), doorOpen='bool', v2b_=(0, 1),
+                 Q=(0, 2))
+    for f in ['numItems + x_Y > 0 /\\ doorOpen', 'doorOpen <=> (x_Y < v2b_)',
+              'Q = numItems', '\\E Q: Q > x_Y /\\ Q < numItems + 2',
+              'ite(doorOpen, numItems, v2b_) = Q']:
+        yield S(f, ndecl)
+    yield dict(t='T9', decl=dict(numItems=(0, 2), doorOpen='bool'), aut=True,
+               formula="numItems' = numItems + 1 /\\ doorOpen'",
+               tree=fm.parse("numItems' = numItems + 1 /\\ doorOpen'"))
+
+
 GENS = dict(T1=gen_T1, T2=gen_T2, T3=gen_T3, T4=gen_T4, T5=gen_T5, T6=gen_T6,
-            T7=gen_T7, T8=gen_T8)
+            T7=gen_T7, T8=gen_T8, T9=gen_T9)
 CHUNK = 120
 
 
@@ -348,7 +401,8 @@ def cases(shard):
     lst = _all_cases(shard['tier'], shard['fam'])
     for c in lst[shard['start']:shard['start'] + CHUNK]:
         c = dict(c)
-        c['formula'] = fm.show(c['tree'])
+        if 'formula' not in c:
+            c['formula'] = fm.show(c['tree'])
         c['cfg'] = shard['cfg']
         yield c
 
